@@ -17,6 +17,7 @@ import ast
 from .. import astq
 from ..cfg import guards_of
 from ..core import Ctx
+from ..normalize import norm as _norm
 
 
 def check(ctx: Ctx) -> str:
@@ -59,8 +60,8 @@ def check(ctx: Ctx) -> str:
     ctx.check(ast.unparse(astq.returns(st)[0].value) == "TemplateStream(self.generate(*args, **kwargs))", "Template.stream", "environment:Template.stream", "stream wraps generate", "stream must wrap self.generate(*args, **kwargs)", f"src/jinja2/environment.py:{st.lineno}")
     tm = repo.cls("environment:TemplateModule")
     ctx.check("body_stream = list(template.root_render_func(context))" in ast.unparse(tm.methods["__init__"]), "TemplateModule.__init__", "environment:TemplateModule.__init__", "module body", "a template module must collect the root generator's output as its body stream", tm.loc())
-    ctx.check(ast.unparse(astq.returns(tm.methods["__str__"])[0].value) == "concat(self._body_stream)", "TemplateModule.__str__", "environment:TemplateModule.__str__", "str(module)", "str(module) must be the concatenated body stream", tm.loc())
-    ctx.check(ast.unparse(astq.returns(tm.methods["__html__"])[0].value) == "Markup(concat(self._body_stream))", "TemplateModule.__html__", "environment:TemplateModule.__html__", "module markup", "module.__html__ must be the concatenated body stream marked safe", tm.loc())
+    ctx.check(ast.unparse(astq.returns(_norm(tm.methods["__str__"]))[0].value) == "concat(self._body_stream)", "TemplateModule.__str__", "environment:TemplateModule.__str__", "str(module)", "str(module) must be the concatenated body stream", tm.loc())
+    ctx.check(ast.unparse(astq.returns(_norm(tm.methods["__html__"]))[0].value) == "Markup(concat(self._body_stream))", "TemplateModule.__html__", "environment:TemplateModule.__html__", "module markup", "module.__html__ must be the concatenated body stream marked safe", tm.loc())
     env = repo.cls("environment:Environment")
     ctx.check(ast.unparse(env.assigns.get("concat", ast.Constant(None))) == "''.join", "Environment.concat", "environment:Environment", "concat hook", "Environment.concat must be ''.join", env.loc())
     ctx.check(ast.unparse(repo.module("utils").assigns.get("concat", ast.Constant(None))) == "''.join", "utils.concat", "utils:<module>", "concat", "utils.concat must be ''.join", "src/jinja2/utils.py")
